@@ -122,6 +122,20 @@ pub fn check_case(ctx: &Ctx, st: &mut Stats, tcs: &[String], s: Settings) {
                 let m = re.find(tc);
                 let ok = m.map(|m| m.start() == 0 && m.end() == tc.len()).unwrap_or(false);
                 if !ok {
+                    // arbitrate with the reference engine: the optimised search of regex 1.10.6 is
+                    // itself wrong on some inputs (`\daa|a` on FULLWIDTH DIGIT ONE + "aa" gives 3..4)
+                    match crate::oracle::reference_find(&out, tc) {
+                        Some(Some((0, e))) if e == tc.len() => {
+                            st.count("engine_disagrees_with_reference_search");
+                            st.inconclusive("regex::Regex::find disagrees with the reference leftmost-first search (engine defect, not grex)");
+                            continue;
+                        }
+                        None => {
+                            st.inconclusive("reference search could not be built");
+                            continue;
+                        }
+                        _ => {}
+                    }
                     let mut case = case_json(tcs, s);
                     case["output"] = json!(out);
                     case["test_case"] = json!(tc);
@@ -206,6 +220,9 @@ pub fn run(ctx: &Ctx) -> i32 {
         vec!["", "a", "ab"],
         vec![".", ".*", ".*?"],
         vec!["\\", "\\\\", "\\d"],
+        vec!["\u{ff11}aa", "a"],
+        vec!["\u{ff11}", "1a", "11"],
+        vec!["\u{65e5}\u{672c}", "aaa"],
     ];
     let others: Vec<u32> = if ctx.thorough { vec![0, VERB, CI, ESC, CAP, REP, DIGIT, WORD, NWORD, NSPACE, VERB | CI, REP | WORD, DIGIT | NDIGIT, VERB | REP | CAP, 63] } else { vec![0, VERB, CI, REP, WORD, NWORD, VERB | CAP | REP, DIGIT | NDIGIT] };
     par_for(&ctx.run, variants.len() * others.len() * 4, |i, st| {
